@@ -55,9 +55,13 @@ Qed.
 (* ------------------------------------------------------------------------------------------------
    2. Discard / keep / transform                                                                   *)
 
-(* A change that is not a rigid-body motion (Kabsch RMSD above threshold, or different atoms)
+(* _partial: "rigid" / "non-rigid" are the two ORACLE BITS of the coordinates setter (big = RMSD after Kabsch
+   alignment > 1e-8, pure = all atoms shifted alike); the model has no coordinates, so nothing here relates the bits
+   to an actual displacement - that is done numerically by the harness on every step (incl. 1e-6..1e-3 A steps and
+   1e-4 rad rotations).  What IS proved: what the setters do with the stored results for each value of the bits.
+   A change that is not a rigid-body motion (Kabsch RMSD above threshold, or different atoms)
    discards energies, gradient and Hessian. *)
-Theorem nonrigid_change_discards : forall s,
+Theorem nonrigid_change_discards_partial : forall s,
   (forall rows pure s', set_coords rows true pure s = (s', OOk) ->
       en s' = [] /\ grad s' = None /\ hess s' = None /\ hcache s' = None /\ geom s' <> geom s) /\
   (forall ls big pure s', ls <> labels s -> set_atoms ls big pure s = (s', OOk) ->
@@ -82,9 +86,9 @@ Definition rigid (o : op) : bool :=
   | _ => false
   end.
 
-(* A rigid-body motion keeps the energies and the geometry identity; a frame-dependent array is either
+(* _partial for the same reason.  A rigid-body motion keeps the energies and the geometry identity; a frame-dependent array is either
    gone afterwards or, if it was current before, is current after (transformed with the frame). *)
-Theorem rigid_motion_keeps_energies_transforms_or_discards : forall s o s',
+Theorem rigid_motion_keeps_energies_transforms_or_discards_partial : forall s o s',
   rigid o = true -> step s o = (s', OOk) ->
   en s' = en s /\ geom s' = geom s /\ labels s' = labels s /\
   (grad s' = None \/ (grad s = Some (cur s) -> grad s' = Some (cur s'))) /\
@@ -101,9 +105,13 @@ Proof.
 Qed.
 
 (* ------------------------------------------------------------------------------------------------
-   3. Copies and new species share no state: whatever is done to the other species of a world, and
+   3. _partial: the model's states are immutable values, so NO aliasing is representable in it: this theorem only
+      fixes what copy / new_species hand over (same identities, no memoised values, no results for new_species) and
+      that the world bookkeeping touches one species at a time.  That the real objects (copies, new species,
+      conformers, conformer members) share no mutable state is established by the harness' aliasing probes only.
+      Copies and new species share no state: whatever is done to the other species of a world, and
       however many further copies are taken, species j is untouched.                              *)
-Theorem copies_share_nothing :
+Theorem copies_share_nothing_partial :
   (forall w xs j, j < length w -> (forall x, In x xs -> ~ targets x j) ->
       nth_error (wrun w xs) j = nth_error w j) /\
   (forall s ops, nth_error (wrun [s] (CopyOf 0 :: map (On 1) ops)) 0 = Some s /\
@@ -158,8 +166,11 @@ Proof.
 Qed.
 
 (* ------------------------------------------------------------------------------------------------
-   5. Read-only queries never alter the geometry, the results or the graph                        *)
-Theorem queries_preserve_internal_geometry : forall q s,
+   5. _partial: states what the model's queries do (nothing, except memoising on the Hessian object); sn's
+      recentring is a translation and therefore the identity on the model's identities.  That the real queries leave
+      the distance matrix, results and graph alone is checked by the harness after every query step.
+      Read-only queries never alter the geometry, the results or the graph                        *)
+Theorem queries_preserve_internal_geometry_partial : forall q s,
   let s' := fst (do_query q s) in
   snd (do_query q s) = OOk /\
   geom s' = geom s /\ frame s' = frame s /\ order s' = order s /\ labels s' = labels s /\
@@ -180,15 +191,17 @@ Proof.
 Qed.
 
 (* ------------------------------------------------------------------------------------------------
-   6. Invalid states are rejected with the documented error (ValueError) and leave the species
+   6. _partial: the decision rules of the setters (read off the code, tied by the malformed-input streams).
+      False, see the _refuted theorem below: the constructor does not check the multiplicity.
+      Invalid states are rejected with the documented error (ValueError) and leave the species
       unchanged; valid ones are accepted.                                                          *)
-Theorem invalid_states_rejected : forall s,
+Theorem invalid_states_rejected_partial : forall s,
   (* multiplicity *)
   (forall z, (z <= 0)%Z -> step s (SetMult (Some z)) = (s, OErr ValueErr)) /\
   step s (SetMult None) = (s, OErr ValueErr) /\
   (forall z, (0 < z)%Z -> snd (step s (SetMult (Some z))) = OOk /\ mult (fst (step s (SetMult (Some z)))) = z) /\
   (* gradient *)
-  (forall sh, prod sh <> 3 * n_atoms s -> step s (SetGrad (GArr sh)) = (s, OErr ValueErr)) /\
+  (forall sh, sh <> [n_atoms s; 3] -> sh <> [3 * n_atoms s] -> step s (SetGrad (GArr sh)) = (s, OErr ValueErr)) /\
   step s (SetGrad GOther) = (s, OErr ValueErr) /\
   snd (step s (SetGrad (GArr [n_atoms s; 3]))) = OOk /\ snd (step s (SetGrad (GArr [3 * n_atoms s]))) = OOk /\
   (* Hessian *)
@@ -203,19 +216,20 @@ Theorem invalid_states_rejected : forall s,
   (forall rows big pure, rows <> n_atoms s ->
       snd (step s (SetCoords rows big pure)) = OErr AssertErr /\
       let s' := fst (step s (SetCoords rows big pure)) in
-      geom s' = geom s /\ labels s' = labels s /\ en s' = [] /\ grad s' = None /\ hess s' = None).
+      geom s' = geom s /\ labels s' = labels s /\ en s' = [] /\ grad s' = None /\ hess s' = None) /\
+  (* coordinates whose size is not a multiple of three: ValueError, nothing touched *)
+  step s SetCoordsRagged = (s, OErr ValueErr).
 Proof.
   intros s. repeat match goal with |- _ /\ _ => split end.
   - intros z Hz. cbn. destruct (0 <? z)%Z eqn:E; [apply Z.ltb_lt in E; lia|reflexivity].
   - reflexivity.
   - intros z Hz. cbn. destruct (0 <? z)%Z eqn:E; [split; reflexivity|apply Z.ltb_ge in E; lia].
-  - intros sh Hs. unfold step, set_grad. destruct (prod sh =? 3 * n_atoms s) eqn:E;
-      [apply Nat.eqb_eq in E; contradiction|reflexivity].
+  - intros sh H1 H2. unfold step, set_grad.
+    destruct (nl_eqb sh [n_atoms s; 3]) eqn:E1; [apply nl_eqb_spec in E1; contradiction|].
+    destruct (nl_eqb sh [3 * n_atoms s]) eqn:E2; [apply nl_eqb_spec in E2; contradiction|]. reflexivity.
   - reflexivity.
-  - unfold step, set_grad. replace (prod [n_atoms s; 3]) with (3 * n_atoms s) by (cbn; lia).
-    now rewrite Nat.eqb_refl.
-  - unfold step, set_grad. replace (prod [3 * n_atoms s]) with (3 * n_atoms s) by (cbn; lia).
-    now rewrite Nat.eqb_refl.
+  - unfold step, set_grad. now rewrite (proj2 (nl_eqb_spec _ _) eq_refl).
+  - unfold step, set_grad. rewrite (proj2 (nl_eqb_spec [3 * n_atoms s] _) eq_refl). now rewrite orb_true_r.
   - intros sh Hs. unfold step, set_hess. destruct (nl_eqb sh [3 * n_atoms s; 3 * n_atoms s]) eqn:E;
       [apply nl_eqb_spec in E; contradiction|reflexivity].
   - reflexivity.
@@ -225,10 +239,24 @@ Proof.
   - intros m H. unfold step, reorder in *. destruct (mapping_ok (n_atoms s) m); [contradiction H; reflexivity|reflexivity].
   - intros rows big pure Hr. unfold step, set_coords.
     destruct (rows =? n_atoms s) eqn:E; [apply Nat.eqb_eq in E; contradiction|]. cbn. repeat split.
+  - reflexivity.
 Qed.
 
+(* the multiplicity of a species constructed with a positive one stays positive whatever is done to it *)
+Theorem multiplicity_stays_positive : forall ls edges m ops,
+  (0 < m)%Z -> (0 < mult (run (init ls edges m) ops))%Z.
+Proof. intros. now apply mult_pos_run. Qed.
+
+(* FALSE of the faithful model (and of the code: finding Species.__init__|non-positive-multiplicity-accepted):
+   "non-positive multiplicity rejected" - the constructor stores int(mult) unchecked (species.py:83) *)
+Theorem nonpositive_multiplicity_at_construction_refuted :
+  exists ls edges m, (m <= 0)%Z /\ mult (init ls edges m) = m.
+Proof. exists [1], [], 0%Z. split; [lia|reflexivity]. Qed.
+
 (* ------------------------------------------------------------------------------------------------
-   7. Why transforming with the frame is right (semantics of the ghost tags): for every pair potential
+   7. SUPPORTING lemmas, not linked to Model.v (which has no numbers) and not to calculus (that `gradient` and
+      `hessian` below are the derivatives of `energy` is not proved): they justify the design of the ghost tags.
+      Why transforming with the frame is right (semantics of the ghost tags): for every pair potential
       (arbitrary radial functions phi_ij of the squared distance, any number of atoms, exact rationals),
       every orthogonal R and every shift t, energy / gradient / Hessian of the moved geometry
       x'_i = R x_i + t are E, R G_i and R H_ij R^-1 - what Species.rotate stores - and a pure translation
